@@ -543,7 +543,7 @@ pub fn replay(ctx: &Ctx, w: &Value) {
 
 /// `vh serve <address>`: the standard service behind listen(), until killed.
 pub fn serve(address: &str) -> i32 {
-    let svc = standard_service(SvcCfg::default());
+    let svc = if std::env::var("VH_PROCESS_SERVICE").is_ok() { process_service() } else { standard_service(SvcCfg::default()) };
     match varlink::listen(svc, address, &varlink::ListenConfig { max_worker_threads: 200, ..Default::default() }) {
         Ok(()) => 0,
         Err(e) => {
